@@ -209,7 +209,7 @@ def _gff_entries():
     return [("chr1", "src", "gene", 1, 9, None, F, None, {"ID": "g1"}),
             ("chr 2", "a;b", "CDS", 5, 5, 0.5, R, 2, {"ID": "c1", "Note": "x y,z=1"}),
             ("c%3", ".", "exon", 100000, 100001, 12.0, None, 0, {}),
-            ("chr1", "src", "gene", 1, 9, None, F, None, {"ID": "g1"})]          # (a duplicate of the first entry)
+            ("chr1", "src", "gene", 1, 9, 0.0, F, 0, {"ID": "g1"})]          # (the first entry with score 0.0 and phase 0 instead of none)
 
 
 def gfffile_seq(ops):
